@@ -441,6 +441,10 @@ theorem step_sim (pol : Policy) (hp : Conforming pol) (s : S) (g : G) (R : Rel s
     exact sim_reqCapped pol hp s g R n
   | capBegin => exact absurd rfl h1
   | capEnd => exact absurd rfl h2
+  | getPos =>
+    simp only [stepG, Except.ok.injEq, Prod.mk.injEq] at h
+    obtain ⟨hr, hg⟩ := h; subst hr; subst hg
+    right; exact ⟨s, by simp [stepS, R.data], R, rfl⟩
 
 
 theorem advance_err_panic (g : G) (n : Nat) (e : Err) (h : g.advance n = .error e) : e.isPanic = true := by
@@ -507,6 +511,7 @@ theorem stepG_err_panic (g : G) (o : Op) (e : Err) (h : stepG g o = .error e) : 
         · cases h; rfl
         · cases h
       · cases h
+  | getPos => simp [stepG] at h
 
 /-- **Simulation**: a capture-free program that the generous layer runs without a panic is run by
     the stream layer, over ANY conforming grant policy and with ANY request failing, to the same
